@@ -19,4 +19,9 @@ theorem vars20 : GenV20.pkg_vars =
     bytes the model works on — no cached or hidden state takes part in it), and only these methods have a pointer receiver
     (every other method works on a copy and cannot change the object) -/
 theorem obj20 : GenV20.obj_fields = ["u0:uint8", "u1:uint8", "u2:uint8", "u3:uint8"] ∧ GenV20.obj_ptr_methods = ["Set"] := by decide
+/-- what the pointer-receiver methods do with their receiver: only `Set` assigns through it; none takes an address inside the
+    object, hands the pointer on, or keeps an alias -/
+theorem effects20 : GenV20.obj_ptr_effects = ["Set:writes"] := by decide
+/-- `sync.Pool`s of the package: `splitPool.New` makes a 14-slot `[]string` (the buffer length every v2.0 parser theorem assumes: `buf.length = 14`), `ParseVector` is the only user, it takes one buffer and hands the SAME variable back, deferred (so on every path) -/
+theorem pool20 : GenV20.pool_new = ["splitPool:New=make([]string, 14)"] ∧ GenV20.pool_uses = ["ParseVector:v0 := splitPool.Get()", "ParseVector:defer splitPool.Put(v0)"] := by decide
 end StateTie
